@@ -125,7 +125,7 @@ def rule_ctxflow(E, R):
         lits = [s for s in exprs(hn["body"], "Struct")]
         for s in lits:
             f = [x for x in s["fields"] if x["name"] == "context"]
-            R.check(bool(f) and local_name(f[0]["e"]) == "context", rule, NEW_FN, "new() stores its context parameter",
+            R.check(bool(f) and is_param(f[0]["e"], hn, 2), rule, NEW_FN, "new() stores its context parameter",
                     where=s["sp"])
     else:
         R.cannot(rule, NEW_FN, "anchor not found")
@@ -191,7 +191,9 @@ def rule_order(E, R):
     # lexing: args only grows by push
     h = E.hir(LEX_FN)
     if h:
-        muts = [c for c in exprs(h["body"], "MethodCall") if local_name(chain(c)[0]) == "args"
+        accepted = {local_name(chain(c_["args"][1])[0]) for c_ in calls(h["body"], r"^" + NEW_FN.replace(":", r"\:") + "$") if len(c_["args"]) > 1}
+        accepted.discard(None)
+        muts = [c for c in exprs(h["body"], "MethodCall") if local_name(chain(c)[0]) in accepted
                 and c["m"] in ("push", "insert", "remove", "pop", "swap", "truncate", "clear", "reverse", "sort",
                                "extend", "drain", "retain", "swap_remove", "dedup", "rotate_left", "rotate_right")
                 and strip(c["recv"]).get("k") == "Path"]
@@ -208,7 +210,8 @@ def rule_order(E, R):
         return R.cannot(rule, COMPILE_FN, "anchor not found")
     n = 0
     removes = []
-    for c, root, ch in _chains_over(hc["body"], {"args", "extra_args"}):
+    arg_names = _arg_locals(hc)
+    for c, root, ch in _chains_over(hc["body"], arg_names):
         ms = [x["m"] for x in ch]
         ty = c.get("ty", "")
         if ms == ["remove"]:
@@ -221,7 +224,7 @@ def rule_order(E, R):
             continue
         n += 1
         v = chain_verdict(ch)
-        label = "chain %s.%s" % (local_name(root), ".".join(ms))
+        label = "chain args.%s" % ".".join(ms)
         if v == "ok":
             R.ok(rule, COMPILE_FN, label, where=c["sp"])
         elif v.startswith("lossy"):
@@ -234,10 +237,12 @@ def rule_order(E, R):
     for c in removes:
         R.check(lit_value(c["args"][0]) == 0, rule, COMPILE_FN, "mapped argument is args.remove(0)", where=c["sp"])
     # return_type / check_param iterate self.args / args in order
-    for fn, names, fields in ((RET_FN, set(), ("args",)), (LEX_FN, {"args"}, ())):
+    for fn, names, fields in ((RET_FN, set(), ("args",)), (LEX_FN, None, ())):
         hh = E.hir(fn)
         if not hh:
             continue
+        if names is None:
+            names = {local_name(chain(c_["args"][1])[0]) for c_ in calls(hh["body"], r"^" + NEW_FN.replace(":", r"\:") + "$") if len(c_["args"]) > 1}
         for c, root, ch in _chains_over(hh["body"], names, fields):
             ms = [x["m"] for x in ch]
             if ms in (["push"], ["len"], ["is_empty"]):
@@ -252,19 +257,54 @@ def rule_order(E, R):
                 R.undecided(rule, fn, label, "unrecognised adaptor `%s`" % v[8:], c["sp"])
 
 
-def _origin(e):
-    """classify an ExactSizeChain::new operand: 'once-elem', 'local:<name>' (root of its chain) or '?'"""
+def _arg_locals(hb):
+    """locals of a function body that hold the call's argument list: the binding of the struct field `args` taken out of
+    self, and every local initialised from an order-preserving chain over one of them"""
+    names = set()
+    for q in walk(hb["body"]):
+        if q.get("k") == "PStruct":
+            for fld in q["fields"]:
+                if fld["name"] == "args":
+                    names |= set(pat_bindings(fld["pat"]))
+    changed = True
+    while changed:
+        changed = False
+        for st in exprs(hb["body"], "SLet"):
+            if "init" in st and st["pat"].get("k") == "PBinding" and st["pat"]["name"] not in names:
+                root, ch = chain(st["init"])
+                if local_name(root) in names and ch and ch[-1]["m"] in ("collect", "into_boxed_slice", "into_iter", "iter"):
+                    names.add(st["pat"]["name"])
+                    changed = True
+    return names
+
+
+def _origin(e, hb, role_of=None):
+    """classify an ExactSizeChain::new operand: 'once-ok:<role>', 'local:<role>' (root of its chain) or '?';
+    roles: 'closure-param', 'args' (see _arg_locals), 'defaults' (built from default_value), else the spelling"""
+    cparams = set()
+    for c in exprs(hb["body"], "Closure"):
+        cparams |= set(closure_param_names(c))
+    args = _arg_locals(hb)
+
+    def role(nm):
+        if role_of and nm in role_of:
+            return role_of[nm]
+        if nm in args:
+            return "args"
+        if nm in cparams:
+            return "closure-param"
+        return nm
     e = strip(e)
     if e.get("k") == "Call" and norm(e.get("callee", "")).endswith("iter::sources::once::once"):
         inner = strip(e["args"][0])
         if inner.get("k") == "Call" and norm(inner.get("callee", "")).endswith("Result::Ok"):
-            return "once-ok:" + str(local_name(inner["args"][0]))
+            return "once-ok:" + str(role(local_name(inner["args"][0])))
         return "once:?"
     root, ch = chain(e)
     nm = local_name(root)
     if nm:
         v = chain_verdict(ch)
-        return "local:%s%s" % (nm, "" if v == "ok" else "!" + v)
+        return "local:%s%s" % (role(nm), "" if v == "ok" else "!" + v)
     return "?"
 
 
@@ -278,24 +318,28 @@ def rule_defaults(E, R):
         cs = [c for c in exprs(h["body"], "MethodCall") if c["m"] == "chain"]
         R.floor(rule, "chain() in ExactSizeChain::new", len(cs), 1)
         for c in cs:
-            R.check(local_name(c["recv"]) == "a" and local_name(c["args"][0]) == "b", rule, CHAIN_NEW,
+            R.check(is_param(c["recv"], h, 0) and is_param(c["args"][0], h, 1), rule, CHAIN_NEW,
                     "first operand is iterated before the second", "must be `a.chain(b)`", c["sp"])
     sites = []
     for hb in E.hir_list:
         if "body" not in hb:
             continue
         for c in calls(hb["body"], r"^functions::ExactSizeChain::new$", into_closures=True):
-            sites.append((norm(hb["path"]), c))
+            sites.append((norm(hb["path"]), c, hb))
     R.floor(rule, "ExactSizeChain::new call sites", len(sites), 3)
-    for fn, c in sites:
-        a, b = _origin(c["args"][0]), _origin(c["args"][1])
+    for fn, c, hb_ in sites:
+        defaults = {}
+        for st in exprs(hb_["body"], "SLet"):
+            if "init" in st and st["pat"].get("k") == "PBinding" and any(f["name"] == "default_value" for f in exprs(st["init"], "Field")):
+                defaults[st["pat"]["name"]] = "defaults"
+        a, b = _origin(c["args"][0], hb_, defaults), _origin(c["args"][1], hb_, defaults)
         if fn == SIMPLE_COMPILE:
-            good = a == "local:args" and b == "local:opt_args"
+            good = a == "local:closure-param" and b == "local:defaults"
             R.check(good, rule, fn, "caller arguments before declared defaults",
                     "got (%s, %s); expected the call's `args` followed by `opt_args`" % (a, b), c["sp"])
         elif fn == COMPILE_FN:
-            good = a == "once-ok:elem" and b in ("local:extra_args", "local:args")
-            R.check(good, rule, fn, "mapped element first, remaining arguments after it (%s)" % b.split(":")[1],
+            good = a == "once-ok:closure-param" and b == "local:args"
+            R.check(good, rule, fn, "mapped element first, remaining arguments after it (%s)" % ("memoised" if "extra" in str(c["args"][1]) else "re-evaluated"),
                     "got (%s, %s)" % (a, b), c["sp"])
         else:
             R.undecided(rule, fn, "unreviewed ExactSizeChain::new site", "(%s, %s)" % (a, b), c["sp"])
@@ -304,9 +348,11 @@ def rule_defaults(E, R):
     if hs:
         ok = False
         for st in exprs(hs["body"], "SLet"):
-            if st["pat"].get("k") == "PBinding" and st["pat"]["name"] == "opt_args" and "init" in st:
+            if st["pat"].get("k") == "PBinding" and "init" in st and any(f["name"] == "default_value" for f in exprs(st["init"], "Field")):
                 root, ch = chain(st["init"])
-                if local_name(root) == "opt_params" and chain_verdict(ch) == "ok":
+                src = let_init(hs["body"], local_name(root)) if local_name(root) else None
+                from_suffix = src is not None and any(root_is_field(i_["e"], "self", "opt_params") for i_ in exprs(src, "Index"))
+                if from_suffix and chain_verdict(ch) == "ok":
                     cl = [closure_of(x["args"][0]) for x in ch if x["m"] == "map"]
                     if cl and cl[0]:
                         flds = [f for f in exprs(cl[0]["body"], "Field") if f["name"] == "default_value"]
